@@ -14,16 +14,23 @@
   * `recover_fixpoint_act` — on an entry that satisfies the invariant nothing is written
     (recovering a quiescent allocator changes nothing, cf. C17 "recovers with the same state").
 
-  PARTIAL: lifting these per-entry facts to the whole loop of `recover` and to every crash point
-  of every interleaving needs (a) the loop specification of `recover` (`count_zeros`/`fill` over
-  all entries) and (b) the concurrent invariant that characterises the states a crash can leave;
-  not yet theorems. Explored by the crash oracle of the trace co-simulation: before every atomic
+  * `recover_reestablishes` / `lower_recover_spec` — the whole program (`count_zeros`, `fill`,
+    both loops, then `Trees::new`): from **any** persistent state satisfying the weak invariant
+    `CrashInv` (sizes, no free frame outside the range, markers only inside it — counters
+    arbitrary, splits half done) recovery never panics, re-establishes the lower and upper
+    invariants with nothing hidden (fast = exact), and keeps the allocation status of every
+    frame as recorded by markers and bits; `recover_then_history`.
+
+  PARTIAL: that every state a crash can leave — at any point of any interleaving — satisfies
+  `CrashInv`, and that at that instant the bits/markers of every completed allocation are set
+  and those of frames untouched by in-flight calls are as before (the concurrent ownership
+  invariant), are not theorems. Explored by the crash oracle of the trace co-simulation: before every atomic
   write to the persistent buffer, of every explored schedule, the buffer is copied and recovered
   with the real code (held blocks allocated and freeable at their order, counts agree, at most
   the in-flight calls' frames missing), and by recover-at-quiescent-points in the sequential
   histories and the NVM wrapper runs.
 -/
-import LLFreeV.Model.Lower
+import LLFreeV.Proofs.EndToEnd
 namespace LLFree.C05
 open LLFree
 
@@ -73,5 +80,41 @@ theorem recover_fixpoint_act (hf entry zeros : Nat)
 /-- Non-vacuity: counter 5 over a bitfield with 7 zero bits is corrected to 7; a marker over a
     partly filled bitfield (crash inside a split) clears the bitfield. -/
 example : recoverAct 512 5 7 = .setCounter 7 ∧ recoverAct 512 HugeMarker 300 = .clearBitfield := by decide
+
+
+/-- what holds of the persistent metadata at every instant of every execution (sizes, no free
+    frame outside the managed range, whole-huge markers only inside it): the states a crash can
+    leave. Every state satisfying the lower invariant satisfies it (`LowerInv.crashInv`). -/
+abbrev CrashState := @CrashInv
+
+/-- **Recovery re-establishes the invariants and keeps the allocation state of every frame**:
+    from *any* persistent state satisfying the weak invariant (counters may be arbitrary, a split
+    may be half done, bitfields of whole huge frames may be partly filled) and zeroed volatile
+    buffers, `new(Init::Recover)` never panics, yields a state satisfying the lower and upper
+    invariants with nothing hidden — so fast and exact counts agree (C04.fast_counters_exact)
+    — and every frame is allocated afterwards iff the persistent state recorded it as allocated
+    (whole-huge marker or bit set): a block whose bits were written stays allocated and can be
+    freed at its order (C02.put_refines), a frame recorded free is free. -/
+theorem recover_reestablishes (c : Cfg) (ok : CfgOk c) (m : Mem) (ci : CrashInv c m) (ht : m.trees.size = c.ntrees)
+    (hss : m.slots.size = c.nslots) (habs : ∀ s, SlotAbsent m s) :
+    Runs m (initProg c .recover) (fun _ m' => UpperInv0 c (fun _ => False) m' ∧
+      (∀ f, m'.allocated c.geom f = m.allocated c.geom f) ∧ (∀ h, m'.whole h = m.whole h)) :=
+  init_recover_spec ok m ci ht hss habs
+
+/-- the lower half: counters are rebuilt from the bitfields, markers win over their bitfield -/
+theorem lower_recover_spec (c : Cfg) (ok : GeomOk16 c.geom) (m : Mem) (ci : CrashInv c m) (ht : m.trees.size = c.ntrees) :
+    Runs m (Lower.recover c.geom c.ntrees c.nhuge) (fun _ m' => LowerInv c m' ∧
+      (∀ h, Huge.isHuge (m'.hugeE h) = Huge.isHuge (m.hugeE h)) ∧
+      (∀ f, Huge.isHuge (m.hugeE (f / c.geom.hugeFrames)) = false → m'.bit f = m.bit f) ∧
+      m'.trees = m.trees ∧ m'.slots = m.slots) := recover_spec ok m ci ht
+
+/-- recovery followed by any sequential history never panics and keeps the invariant -/
+theorem recover_then_history (c : Cfg) (ok : CfgOk c) (calls : List Call) (hvalid : ∀ x ∈ calls, x.valid c) (m : Mem)
+    (ci : CrashInv c m) (ht : m.trees.size = c.ntrees) (hss : m.slots.size = c.nslots) (habs : ∀ s, SlotAbsent m s) :
+    Runs m (do initProg c .recover; runCalls c calls) (fun _ m' => ∃ H', UpperInv0 c H' m') :=
+  LLFree.recover_then_history ok calls hvalid m ci ht hss habs
+
+/-- a quiescent state is a crash state: recovering it changes no allocation status -/
+theorem quiescent_is_crash_state (c : Cfg) (m : Mem) (inv : LowerInv c m) : CrashInv c m := inv.crashInv
 
 end LLFree.C05
